@@ -1,10 +1,9 @@
 """C12 — Relocation overflow is reported exactly when a value doesn't fit.
 
 End-to-end tier (this file): one relocation site per link.  x86-64: a `.reloc` of the generated type
-against the absolute symbol `target` (`--defsym target=S`), addend A from the case; for PC-relative
-kinds the site address P of each linker's own layout is measured by a pilot link of the same object
-shape and S is chosen per linker so that the computed value X = S + A - P is the generated one in
-all three links.  Three-way differential: GNU ld and lld both accept -> wild must accept and write
+against the symbol `target`, addend A from the case.  Absolute kinds: `--defsym target=S` with
+S = X - A.  PC-relative kinds: `--defsym target=site+OFF` (all three linkers evaluate it), so the
+computed value X = S + A - P = OFF + A is layout-independent.  Three-way differential: GNU ld and lld both accept -> wild must accept and write
 the same bytes (which must be X truncated to the field); both reject -> wild must reject (and not
 crash); they disagree -> OracleSplit.  AArch64: lld and a hand-transcribed table of the psABI
 overflow checks must agree (else OracleSplit); the instruction word wild writes must equal lld's.
@@ -17,6 +16,7 @@ import hashlib
 import json
 import os
 import subprocess
+from collections import Counter
 
 from hypothesis import strategies as st
 
@@ -55,6 +55,7 @@ def run_inproc(check, sub, tier, seed, stats, quick_cases, thorough_cases, prefi
     first = None
     ev = 0
     distinct = 0
+    inproc_classes = Counter()
     for p in procs:
         out, err = p.communicate(timeout=3600)
         if p.returncode != 0:
@@ -66,7 +67,7 @@ def run_inproc(check, sub, tier, seed, stats, quick_cases, thorough_cases, prefi
             if k.startswith("excluded_known/"):
                 stats.excluded_known[k[len("excluded_known/"):]] += v
             else:
-                stats.classes[f"{prefix}/{k}"] += v
+                inproc_classes[k] += v
         for k, v in o.get("extra", {}).items():
             key = f"{prefix}_{k}"
             if isinstance(v, (int, float)) and not isinstance(v, bool):
@@ -79,6 +80,10 @@ def run_inproc(check, sub, tier, seed, stats, quick_cases, thorough_cases, prefi
             if first is None:
                 first = v
     stats.evaluations += ev
+    # The in-process class histogram is kept apart so that it does not crowd out the end-to-end one.
+    stats.extra[f"{prefix}_distinct_classes"] = len(inproc_classes)
+    stats.extra[f"{prefix}_classes"] = dict(inproc_classes.most_common(60))
+    stats.extra[f"{prefix}_classes_rarest"] = dict(inproc_classes.most_common()[-15:])
     stats.extra[f"{prefix}_evaluations"] = ev
     stats.extra[f"{prefix}_distinct_nontrivial"] = distinct
     # Count the in-process distinct cases in distinct_nontrivial without materialising the keys.
@@ -108,8 +113,10 @@ def replay_inproc(check, sub, case):
 X86 = {
     "R_X86_64_8": (1, False), "R_X86_64_16": (2, False), "R_X86_64_32": (4, False), "R_X86_64_32S": (4, False),
     "R_X86_64_64": (8, False), "R_X86_64_PC8": (1, True), "R_X86_64_PC16": (2, True), "R_X86_64_PC32": (4, True),
-    "R_X86_64_PC64": (8, True), "R_X86_64_PLT32": (4, True),
+    "R_X86_64_PC64": (8, True),
 }
+# (PLT32 kinds may legitimately be routed through a PLT entry -- wild does so for AArch64 --defsym
+# symbols -- so their bytes are not comparable end-to-end; they are covered by the in-process tier.)
 
 
 def x86_src(rtype, addend, size):
@@ -140,8 +147,8 @@ A64 = {
     "R_AARCH64_MOVW_SABS_G2": (0xd2c00000, 4, False, False, (-2**48, 2**48), 1),
     "R_AARCH64_LD_PREL_LO19": (0x58000000, 4, True, False, (-2**20, 2**20), 4),
     "R_AARCH64_ADR_PREL_LO21": (0x10000000, 4, True, False, (-2**20, 2**20), 1),
-    "R_AARCH64_ADR_PREL_PG_HI21": (0x90000000, 4, True, True, (-2**32, 2**32), 1),
-    "R_AARCH64_ADR_PREL_PG_HI21_NC": (0x90000000, 4, True, True, None, 1),
+    "R_AARCH64_ADR_PREL_PG_HI21": (0x90000000, 4, True, True, (-2**32, 2**32), 4096),
+    "R_AARCH64_ADR_PREL_PG_HI21_NC": (0x90000000, 4, True, True, None, 4096),
     "R_AARCH64_ADD_ABS_LO12_NC": (0x91000000, 4, False, False, None, 1),
     "R_AARCH64_LDST8_ABS_LO12_NC": (0x39400000, 4, False, False, None, 1),
     "R_AARCH64_LDST16_ABS_LO12_NC": (0x79400000, 4, False, False, None, 2),
@@ -157,7 +164,6 @@ A64 = {
     "R_AARCH64_MOVW_PREL_G2": (0xd2c00000, 4, True, False, (-2**48, 2**48), 1),
     "R_AARCH64_MOVW_PREL_G2_NC": (0xf2c00000, 4, True, False, None, 1),
     "R_AARCH64_MOVW_PREL_G3": (0xd2e00000, 4, True, False, None, 1),
-    "R_AARCH64_PLT32": (None, 4, True, False, (-2**31, 2**31), 1),
 }
 
 
@@ -167,6 +173,49 @@ def a64_src(rtype, addend, word, size):
     body = f"  .inst {word:#x}\n" if word is not None else f"  .skip {size}, 0x55\n"
     return (".globl _start\n.globl site\n.globl target\n.text\n_start:\n  nop\nsite:\n" + rel + body +
             "  .inst 0xd503201f\n")
+
+
+# Field class and X bit range per instruction relocation (AArch64 ELF psABI 5.7.x):
+# class in {mov16, movnz, imm19, adr, imm12, imm14}
+A64_FIELD = {
+    "R_AARCH64_MOVW_UABS_G0": ("mov16", 0), "R_AARCH64_MOVW_UABS_G0_NC": ("mov16", 0),
+    "R_AARCH64_MOVW_UABS_G1": ("mov16", 16), "R_AARCH64_MOVW_UABS_G1_NC": ("mov16", 16),
+    "R_AARCH64_MOVW_UABS_G2": ("mov16", 32), "R_AARCH64_MOVW_UABS_G2_NC": ("mov16", 32),
+    "R_AARCH64_MOVW_UABS_G3": ("mov16", 48),
+    "R_AARCH64_MOVW_SABS_G0": ("movnz", 0), "R_AARCH64_MOVW_SABS_G1": ("movnz", 16), "R_AARCH64_MOVW_SABS_G2": ("movnz", 32),
+    "R_AARCH64_LD_PREL_LO19": ("imm19", 2), "R_AARCH64_ADR_PREL_LO21": ("adr", 0),
+    "R_AARCH64_ADR_PREL_PG_HI21": ("adr", 12), "R_AARCH64_ADR_PREL_PG_HI21_NC": ("adr", 12),
+    "R_AARCH64_ADD_ABS_LO12_NC": ("imm12", 0), "R_AARCH64_LDST8_ABS_LO12_NC": ("imm12", 0),
+    "R_AARCH64_LDST16_ABS_LO12_NC": ("imm12", 1), "R_AARCH64_LDST32_ABS_LO12_NC": ("imm12", 2),
+    "R_AARCH64_LDST64_ABS_LO12_NC": ("imm12", 3), "R_AARCH64_LDST128_ABS_LO12_NC": ("imm12", 4),
+    "R_AARCH64_TSTBR14": ("imm14", 2), "R_AARCH64_CONDBR19": ("imm19", 2),
+    "R_AARCH64_MOVW_PREL_G0": ("movnz", 0), "R_AARCH64_MOVW_PREL_G0_NC": ("mov16", 0),
+    "R_AARCH64_MOVW_PREL_G1": ("movnz", 16), "R_AARCH64_MOVW_PREL_G1_NC": ("mov16", 16),
+    "R_AARCH64_MOVW_PREL_G2": ("movnz", 32), "R_AARCH64_MOVW_PREL_G2_NC": ("mov16", 32),
+    "R_AARCH64_MOVW_PREL_G3": ("movnz", 48),
+}
+
+
+def a64_expected_word(rtype, word, x):
+    """The instruction word the psABI prescribes for value x (two's complement), from `word`."""
+    cls, lo = A64_FIELD[rtype]
+    ux = x & M64
+    if cls == "mov16":
+        return (word & ~(0xffff << 5)) | (((ux >> lo) & 0xffff) << 5)
+    if cls == "movnz":
+        y = (~ux & M64) if x < 0 else ux
+        w = (word & ~(0xffff << 5) & ~(1 << 30)) | (((y >> lo) & 0xffff) << 5)
+        return w | (0 if x < 0 else 1 << 30)
+    if cls == "imm19":
+        return (word & ~(0x7ffff << 5)) | (((ux >> lo) & 0x7ffff) << 5)
+    if cls == "imm14":
+        return (word & ~(0x3fff << 5)) | (((ux >> lo) & 0x3fff) << 5)
+    if cls == "imm12":
+        return (word & ~(0xfff << 10)) | (((ux >> lo) & 0xfff) << 10)
+    if cls == "adr":
+        imm = (ux >> lo) & 0x1fffff
+        return (word & ~((3 << 29) | (0x7ffff << 5))) | ((imm & 3) << 29) | ((imm >> 2) << 5)
+    raise ValueError(cls)
 
 
 def boundary_values(lo, hi):
@@ -221,7 +270,18 @@ def case_strategy():
 
 
 # Exact domains of the known findings (excluded by construction, see known_findings.jsonl).
+_KNOWN = None
+
+
 def known_domain(case):
+    global _KNOWN
+    if _KNOWN is None:
+        _KNOWN = {e["signature"] for e in core.load_known("C12") if e["status"] == "known"}
+    sig = _known_domain(case)
+    return sig if sig in _KNOWN else None
+
+
+def _known_domain(case):
     if "inproc" in case:
         return None
     x = int(case["x"])
@@ -230,9 +290,19 @@ def known_domain(case):
         return "x86_64/R_X86_64_8:rejects-valid"
     if t == "R_X86_64_16" and 32768 <= x <= 65535:
         return "x86_64/R_X86_64_16:rejects-valid"
-    if t in ("R_X86_64_64", "R_X86_64_PC64", "R_AARCH64_ABS64", "R_AARCH64_PREL64") and x == 2**63 - 1:
-        return f"{case['arch']}/{t}:rejects-valid"
+    if x == 2**63 - 1 and unchecked(case["arch"], t):
+        return "no_check:rejects-i64-max"
+    if t in ("R_AARCH64_MOVW_PREL_G0", "R_AARCH64_MOVW_PREL_G1", "R_AARCH64_MOVW_PREL_G2"):
+        lo, hi = A64[t][4]
+        xa = x - x % A64[t][5]
+        if not lo <= xa < hi:
+            return f"aarch64/{t}:accepts-overflow"
     return None
+
+
+def unchecked(arch, t):
+    """True for relocation types without an overflow check (every 64-bit value must be accepted)."""
+    return (arch == "x86_64" and X86[t][0] == 8) or (arch == "aarch64" and A64[t][4] is None)
 
 
 class C12(Check):
@@ -260,19 +330,6 @@ class C12(Check):
         return case_strategy()
 
     # -- helpers -------------------------------------------------------------------------------
-    _pilot = {}
-
-    def _site_addr(self, linker, arch, key, obj_src, d):
-        """Address of `site` in `linker`'s layout of this object shape (pilot link, cached)."""
-        k = (linker, arch, key)
-        if k not in self._pilot:
-            tools.asm(obj_src, "pilot.o", arch=arch, cwd=d)
-            r = self._link(linker, arch, ["-o", "pilot.out", "pilot.o", "--defsym", "target=0"], d)
-            if r.rc != 0:
-                raise Inconclusive(f"pilot link failed with {linker}: {r.err[:400]}")
-            self._pilot[k] = Elf(f"{d}/pilot.out").sym("site").value
-        return self._pilot[k]
-
     @staticmethod
     def _link(linker, arch, args, d):
         extra = ["-m", "aarch64linux"] if arch == "aarch64" and linker != "ld" else []
@@ -287,25 +344,27 @@ class C12(Check):
             size, pcrel = X86[rtype]
             word, page, rng, align = None, False, None, 1
             src = x86_src(rtype, addend, size)
-            pilot_src = x86_src(None, 0, size)
             linkers = ["ld", "lld", "wild"]
         else:
             word, size, pcrel, page, rng, align = A64[rtype]
             x -= x % align
             src = a64_src(rtype, addend, word, size)
-            pilot_src = a64_src(None, 0, word, size)
             linkers = ["lld", "wild"]
-        tools.asm(src, "a.o", arch=arch, cwd=d)
+        # Objects depend only on (type, addend): assembled once per worker (clang start-up dominates).
+        cache = os.path.join(os.path.dirname(d), "objcache")
+        os.makedirs(cache, exist_ok=True)
+        obj = os.path.join(cache, f"{rtype}_{addend}.o".replace("-", "m"))
+        if not os.path.exists(obj):
+            tools.asm(src, obj, arch=arch, cwd=cache)
         res = {}
         for L in linkers:
-            p = self._site_addr(L, arch, size if word is None else 4, pilot_src, d) if pcrel else 0
-            if page:
-                # X = Page(S + A) - Page(P): pick S + A = Page(P) + X (+ a page offset).
-                sa = ((p & ~0xfff) + x + 0x123) & M64
-            else:
-                sa = (x + p) & M64
-            s = (sa - addend) & M64
-            r = self._link(L, arch, ["-o", f"{L}.out", "a.o", "--defsym", f"target={s:#x}"], d)
+            # Absolute kinds: target is an absolute symbol with S = X - A.  PC-relative kinds: target is
+            # defined relative to the site (`site + OFF`, all three linkers evaluate it), so
+            # X = S + A - P = OFF + A whatever the layout; page-relative kinds use X % 4096 == 0, for
+            # which Page(P + X) - Page(P) = X.
+            s = (x - addend) & M64
+            defsym = f"target=site+{s:#x}" if pcrel else f"target={s:#x}"
+            r = self._link(L, arch, ["-o", f"{L}.out", obj, "--defsym", defsym], d)
             if r.timed_out:
                 raise Inconclusive(f"{L} timed out")
             crashed = r.rc < 0 or "panicked at" in r.err
@@ -313,8 +372,8 @@ class C12(Check):
             if r.rc == 0:
                 e = Elf(f"{d}/{L}.out")
                 site = e.sym("site")
-                if site is None or (pcrel and site.value != p):
-                    raise Inconclusive(f"{L}: site moved between pilot and real link")
+                if site is None:
+                    raise Inconclusive(f"{L}: output lacks the symbol `site`")
                 data = e.read(site.value, size + 1 if word is None else 8)
             res[L] = (r.rc == 0, data, crashed, r.err.strip()[-300:])
         if res["wild"][2]:
@@ -336,13 +395,20 @@ class C12(Check):
             if any(r[1] is not None and r[1] != rdata for r in refs):
                 raise OracleSplit(f"{rtype} X={x}: references accept but write different bytes")
             if word is None:
-                expect = (x & ((1 << (8 * size)) - 1)).to_bytes(size, "little") + b"\xaa"
+                expect = (x & ((1 << (8 * size)) - 1)).to_bytes(size, "little") + (b"\xaa" if arch == "x86_64" else b"\x1f")
                 if rdata != expect:
                     raise OracleSplit(f"{rtype} X={x}: reference bytes {rdata.hex()} are not X truncated ({expect.hex()})")
             if not wild_ok:
-                raise Violation(f"{arch}/{rtype}:rejects-valid",
+                sig = "no_check:rejects-i64-max" if x == 2**63 - 1 and unchecked(arch, rtype) else f"{arch}/{rtype}:rejects-valid"
+                raise Violation(sig,
                                 f"{rtype} with computed value {x} ({x & M64:#x}): {' and '.join(l for l in linkers if l != 'wild')} "
                                 f"accept and write {rdata.hex()}; wild fails: {werr}", case)
+            if wdata != rdata and word is not None:
+                # lld and the psABI text may prescribe different (equivalent) encodings (MOVW_PREL_G3:
+                # lld keeps the opcode, the psABI says MOV[NZ]); wild matching either is not judged.
+                want = a64_expected_word(rtype, word, x).to_bytes(4, "little")
+                if wdata[:4] == want and wdata[4:] == rdata[4:]:
+                    raise OracleSplit(f"{rtype} X={x}: lld writes {rdata[:4].hex()}, the psABI encoding is {want.hex()} (wild matches the psABI)")
             if wdata != rdata:
                 raise Violation(f"{arch}/{rtype}:wrong-bytes",
                                 f"{rtype} with computed value {x}: references write {rdata.hex()}, wild writes {wdata.hex()}", case)
